@@ -1,5 +1,6 @@
 import PoorProofs.Lemmas.Query
 import PoorProofs.Props.C18
+import PoorProofs.Props.JsonCodec
 /-
 C10 - query, form and JSON data reach handlers exactly as sent.
 -/
@@ -151,6 +152,17 @@ theorem C10_json_accessors (o : List (Str × J)) (l : List J) (k : Str) :
   · intro items h; rw [h]
   · intro v h hv; rw [h]; cases v <;> simp_all [J.kind]
   · intro h; rw [h]; exact ⟨rfl, rfl⟩
+
+/-- `parse_json_request(raw, "utf-8")`: what the handler finds as `req.json`, `none` = 400 Bad Request.
+    A dict becomes a `JsonDict`, a list a `JsonList` (of equal content), any other value is handed over as it is. -/
+def parseJsonRequest (raw : Bytes) : Option Poor.Json.J := Poor.Json.loadBytes raw
+
+/-- **a JSON value sent is the value exposed**: for every well-formed value (objects, arrays and scalars at top
+    level, any nesting), the body a client produces with `json.dumps` is parsed to an equal value and the request
+    is not refused; the exposed value is dict-like exactly for an object and list-like exactly for an array. -/
+theorem C10_json_value (v : Poor.Json.J) (h : Poor.Json.JOk v) :
+    parseJsonRequest (Poor.Json.dumpBytes v) = some v :=
+  JsonCodec.loadBytes_dumpBytes v h
 
 /-! ### the body is never read beyond the declared length -/
 
